@@ -66,7 +66,7 @@ func buildCases(tier string, u *universe) (cs []caseDef) {
 	for i := range p4ConfigsQuick {
 		c := p4ConfigsQuick[i]
 		d := 2
-		if tier == "thorough" {
+		if tier == "thorough" && i < 2 { // depth 3 for the two unshared-flag configurations without lib imports
 			d = 3
 		}
 		for a := 0; a < na; a++ {
@@ -599,11 +599,11 @@ func main() {
 		for _, c := range p4ConfigsQuick {
 			cfgs = append(cfgs, c.String())
 		}
-		d := 2
+		d := "2"
 		if run.Thorough() {
-			d = 3
+			d = "3 for the first two configurations, 2 for the others"
 			for _, c := range p4ConfigsExtra {
-				cfgs = append(cfgs, c.String()+" (depth 2)")
+				cfgs = append(cfgs, c.String())
 			}
 		}
 		bounds["part4"] = map[string]any{"alphabet": len(p4Alphabet()), "operations": strings.Join(p4OpNames, " "), "paths": strings.Join(p4Paths, " "), "depth": d, "configs": cfgs}
@@ -619,8 +619,8 @@ func main() {
 		Samples: samples.List(), Exhaustive: true, Outcomes: om, Bounds: bounds,
 		Extra: map[string]any{
 			"part1_instantiations": p1Evals, "part1_distinct_type_pairs": len(pairs),
-			"part2_word_executions": p2Evals, "part4_word_executions": p4Evals, "part4_steps": p4Steps, "part2_distinct_state_op_pairs": len(trans), "part2_not_applicable_steps": na,
-			"part2_reads_compared_with_model": reads, "part2_engine_lockstep_comparisons": engcmp, "child_crashes": crashes, "watchdog_reruns": len(retry),
+			"part2_word_executions": p2Evals, "part4_word_executions": p4Evals, "part4_steps": p4Steps, "parts2and4_distinct_state_op_pairs": len(trans), "parts2and4_not_applicable_steps": na,
+			"parts2and4_reads_compared_with_model": reads, "parts2and4_engine_lockstep_comparisons": engcmp, "child_crashes": crashes, "watchdog_reruns": len(retry),
 			"cases": len(cases), "cases_completed": done,
 		},
 	}, []string{
